@@ -1,10 +1,11 @@
 """C07: check configuration (PROP) and MANIFEST texts (META)."""
 import os, sys
 sys.path.insert(0, os.path.dirname(__file__))
+from stream_jobs import JOBS as _SJ, LEAN_MODULES as _SM, RULE as _SR, ASSUMPTIONS as _SA
 from funnel_common import arbiter_job, funnel_job, funnel_conc_job, funnel_shared_job, FUNNEL_RULE, FUNNEL_ASSUME
 
 PROP = {
-    "lean_modules": ["ConduitModel.Props.C07", "ConduitModel.Facts.C07", "ConduitModel.Props.ArbiterProps"],
+    "lean_modules": ["ConduitModel.Props.C07", "ConduitModel.Facts.C07", "ConduitModel.Props.ArbiterProps", "ConduitModel.Props.WorkerProps"],
     "jobs": [
         {"harness": "h_pure", "comp": "dlqwindow", "n_quick": 20000, "n_thorough": 700000,
          "why": "verdicts of the real dlqWindow (v1 stream / v2 funnel) differ from the model that is proved equal to the C07 window specification"},
@@ -15,6 +16,11 @@ PROP = {
     "strength": 'window clause: full (all sizes, thresholds, histories, partitions); fan-out nack arbitration: full; pipeline-level DLQ clauses: partial',
     "assumptions": ["the ring buffer is only driven through Ack/Nack (no concurrent access: it is owned by one goroutine in both engines)"],
 }
+
+PROP["jobs"] += _SJ["C07"]
+PROP["lean_modules"] += _SM["C07"]
+PROP["rule"] += " || v1: " + _SR
+PROP["assumptions"] = list(PROP["assumptions"]) + _SA
 
 META = {
     "text": "Lean 4 theorems, for every window size, threshold, outcome history and batch partition: the v1 ring buffer refines the abstract 'last size outcomes' specification (C07_window_refines), v2 batches decide exactly as v1 record-by-record (C07_v1_v2_same_decisions), size 0 removes the limit, threshold 0 tolerates none, refusal is sticky; under fan-out every position is released at most once and a nack vote on a non-terminal position wins (C07_ma_nack_once, C07_ma_nack_wins). Tied to the real dlqWindow of both engines by differential runs, to the API's config guards by regenerated facts, and the pipeline-level clauses (DLQ exactly once, ack only after confirmed DLQ write, DLQ in source order) by the C07 monitor on funnel traces.",
